@@ -324,6 +324,31 @@ class Run:
             elif kind == 'restart_task':
                 self.task = self.drv.loop.create_task(proc.step_until_terminated())
                 ret = None
+            elif kind == 'reincarnate' and proc.has_terminated():
+                ret = 'terminated'  # (nothing to carry on)
+            elif kind == 'reincarnate':
+                # the running instance is lost (its stepping task is cancelled, the object abandoned) and the process goes on in a new
+                # instance recreated from a checkpoint taken at this very moment, stepped by a new task
+                observers = [x for x in [getattr(self, 'listener', None)] + list(getattr(self, 'listeners_more', [])) if x is not None]
+                for obs_ in observers:
+                    proc.remove_process_listener(obs_)
+                bundle = plumpy.Bundle(proc, dereference=isinstance(proc, plumpy.ContextMixin))
+                if self.task is not None:
+                    self.task.cancel()
+                saved, programs.CURRENT_REC = programs.CURRENT_REC, self.rec
+                try:
+                    new = bundle.unbundle(plumpy.LoadSaveContext(loop=self.drv.loop))
+                finally:
+                    programs.CURRENT_REC = saved
+                self.abandoned = getattr(self, 'abandoned', []) + [proc]
+                for obs_ in observers:
+                    new.add_process_listener(obs_)
+                new.add_cleanup(lambda: self.rec.ev('cleanup'))
+                self.proc = proc = new
+                self.reincarnations = getattr(self, 'reincarnations', 0) + 1
+                self.early_future = None  # (it was handed out by the instance that is gone)
+                self.task = self.drv.loop.create_task(new.step_until_terminated())
+                ret = None
             elif kind == 'step_again':
                 t2 = self.drv.loop.create_task(proc.step_until_terminated())
                 self.extra_tasks.append(t2)
@@ -337,6 +362,7 @@ class Run:
                 entry['ret'] = ['value', _jsonable(ret)]
         except BaseException as exc:  # noqa: BLE001
             entry['ret'] = ['raise', describe_exc(exc)]
+        proc = self.proc  # (a reincarnation replaces the instance)
         entry['state_after'] = proc.state.value
         entry['paused_after'] = proc.paused
         entry['status_after'] = proc.status
@@ -426,6 +452,7 @@ class Run:
                 self._phases()
             finally:
                 drv.on_slot = None
+            proc = self.proc  # (a reincarnation replaces the instance)
             self.final = views(proc)
             self.final_phase = phase_of(proc)
             self.task_info = self._task_info(self.task)
@@ -484,7 +511,6 @@ class Run:
 
     def _phases(self):
         case = self.case
-        proc = self.proc
         # phase 1: the plan
         while True:
             if not self._pump():
@@ -513,23 +539,23 @@ class Run:
         if case.get('drain', True):
             script = list(case.get('resume', ()))
             for _round in range(40):
-                if proc.has_terminated():
+                if self.proc.has_terminated():
                     break
                 owed = self._owed(script)
                 if owed is None:
-                    self.stuck = {'state': proc.state.value, 'paused': proc.paused, 'phase': phase_of(proc)}
+                    self.stuck = {'state': self.proc.state.value, 'paused': self.proc.paused, 'phase': phase_of(proc)}
                     break
                 self.apply(owed, via='drain')
                 if not self._pump():
                     return
         self.drain_done_q = len(self.qpoints) - 1
         # phase 3: probing kill
-        if case.get('probe', False) and not proc.has_terminated():
+        if case.get('probe', False) and not self.proc.has_terminated():
             self.apply(['kill', 'probe'], via='probe')
             if not self._pump():
                 return
         # phase 4: barrage on a terminated process
-        if case.get('barrage', False) and proc.has_terminated():
+        if case.get('barrage', False) and self.proc.has_terminated():
             self.barrage_from = len(self.acts)
             for act in (['pause', 'late'], ['play'], ['kill', 'late'], ['resume', ['late']], ['fail', 'late-fail'],
                         ['soon_ok', 'late-ok'], ['soon_raise', 'late-raise'], ['step_again'], ['cancel_future']):
